@@ -5,12 +5,17 @@ package main
 // Suite anneal-trace (property C07): the REAL SimpleAnnealer / ElapsedTimeTrackingAnnealer
 // run with
 //   - an explorer that records every call the annealer makes on it (Initialise,
-//     TryRandomChange, CoolDown, TearDown) and can panic at a chosen call, wrapped around
+//     TryRandomChange, CoolDown, TearDown) and can panic at a chosen call (before the real call,
+//     for CoolDown also AFTER it: the temperature is then already cooled; in TearDown; while the
+//     attributes of the finish event are built), wrapped around
 //     crem's null explorer, the Kirkpatrick explorer over the dumb model, and the Suppapitnarm
 //     explorer over the multi-objective dumb model with either multi-objective coolant
 //     (= the three annealer types crem's configuration can build);
-//   - 0..4 observers: passive recorders, and crem's own AnnealingMessageObserver /
-//     AnnealingAttributeObserver with Annealing logging switched on, in any position.
+//   - 0..4 observers: passive recorders (one of which may panic in its callback at one of the four
+//     notify points), and crem's own AnnealingMessageObserver / AnnealingAttributeObserver with
+//     Annealing logging switched on, in any position.  All recorders of a case also write one
+//     shared sequence log (who was called with what, in call order), compared with the model's
+//     `deliveries`.
 // One protocol line per run (the merged trace of explorer calls and of the events the
 // first-position recorder received, outcome, final counter and temperature) plus one line per
 // recorder (what that observer received).  The Lean driver evaluates the model of
@@ -35,10 +40,13 @@ import (
 	annealingObserver "github.com/LindsayBradford/crem/internal/pkg/annealing/observer"
 	"github.com/LindsayBradford/crem/internal/pkg/annealing/observer/filters"
 	"github.com/LindsayBradford/crem/internal/pkg/model"
+	"github.com/LindsayBradford/crem/internal/pkg/model/archive"
+	"github.com/LindsayBradford/crem/internal/pkg/model/models/catchment"
 	"github.com/LindsayBradford/crem/internal/pkg/model/models/dumb"
 	"github.com/LindsayBradford/crem/internal/pkg/model/models/modumb"
 	"github.com/LindsayBradford/crem/internal/pkg/observer"
 	"github.com/LindsayBradford/crem/internal/pkg/parameters"
+	"github.com/LindsayBradford/crem/pkg/attributes"
 	"github.com/LindsayBradford/crem/pkg/logging"
 	"github.com/LindsayBradford/crem/pkg/logging/formatters"
 	"github.com/LindsayBradford/crem/pkg/logging/loggers"
@@ -51,18 +59,24 @@ func init() { register("anneal-trace", suiteAnneal) }
 type hookExplorer struct {
 	explorer.Explorer // the explorer under it (real crem code)
 	log               *[]string
-	site              string // none | init | try | cool
+	site              string // none | init | try | cool | coola | fattr | down (observer sites live in the recorders)
 	at                int
 	asError           bool
 	iter              int
+	finalState        string // the explorer's result as it stands when TearDown is entered
+	mute              bool
+}
+
+func (h *hookExplorer) raise() {
+	if h.asError {
+		panic(errors.New("injected failure"))
+	}
+	panic("injected failure")
 }
 
 func (h *hookExplorer) boom(site string) {
-	if h.site == site && (site == "init" || h.iter == h.at) {
-		if h.asError {
-			panic(errors.New("injected failure"))
-		}
-		panic("injected failure")
+	if h.site == site && (site == "init" || site == "fattr" || site == "down" || h.iter == h.at) {
+		h.raise()
 	}
 }
 func (h *hookExplorer) Initialise() {
@@ -73,7 +87,9 @@ func (h *hookExplorer) Initialise() {
 }
 func (h *hookExplorer) TearDown() {
 	*h.log = append(*h.log, "D")
+	h.finalState = explorerResult(h.Explorer)
 	h.Explorer.TearDown()
+	h.boom("down")
 }
 func (h *hookExplorer) TryRandomChange() {
 	h.iter++
@@ -85,25 +101,116 @@ func (h *hookExplorer) CoolDown() {
 	*h.log = append(*h.log, "c")
 	h.boom("cool")
 	h.Explorer.CoolDown()
+	h.boom("coola") // Go's explorers cool first and notify afterwards: a panic out of that notification
+}
+
+// EventAttributes: the finish event's attributes are where the explorer compresses its model / hands out
+// its archive (kirkpatrick fetchFinalCompressedModel); a panic there happens before any observer is called.
+func (h *hookExplorer) EventAttributes(eventType observer.EventType) attributes.Attributes {
+	if h.mute {
+		return nil // the harness reads the annealer's own attributes (the counter) between runs
+	}
+	if eventType == observer.FinishedAnnealing {
+		h.boom("fattr")
+	}
+	return h.Explorer.EventAttributes(eventType)
 }
 func (h *hookExplorer) DeepClone() explorer.Explorer { return h }
+
+// ---------------------------------------------------------------- the result a finish event carries
+
+func compressedSummary(c *archive.CompressedModelState) string {
+	v := make([]string, len(c.Variables))
+	for i, x := range c.Variables {
+		v[i] = bitsOrNaN(x)
+	}
+	return c.Encoding() + "|" + strings.Join(v, " ")
+}
+
+func archiveSummary(a *archive.NonDominanceModelArchive) string {
+	members := a.Archive()
+	m := make([]string, len(members))
+	for i, c := range members {
+		m[i] = compressedSummary(c)
+	}
+	return fmt.Sprintf("%d members: %s", len(members), strings.Join(m, "; "))
+}
+
+// explorerResult: what the explorer holds as its result right now, in the form resultOfFinishEvent gives:
+// the compressed current model (Kirkpatrick) or the solution archive (Suppapitnarm); "" for the null explorer.
+func explorerResult(e explorer.Explorer) (s string) {
+	defer func() {
+		if r := recover(); r != nil {
+			s = fmt.Sprint("panic: ", r)
+		}
+	}()
+	switch x := e.(type) {
+	case *kirkpatrick.Explorer:
+		if x.Model() == nil {
+			return ""
+		}
+		return compressedSummary(new(archive.ModelCompressor).Compress(x.Model()))
+	case *suppapitnarm.Explorer:
+		return archiveSummary(x.VerifArchive())
+	}
+	return ""
+}
+
+func resultOfFinishEvent(e observer.Event) (string, bool) {
+	for _, a := range e.AllAttributes() {
+		switch a.Name {
+		case "CompressedModel":
+			switch v := a.Value.(type) {
+			case archive.CompressedModelState:
+				return compressedSummary(&v), true
+			case *archive.CompressedModelState:
+				return compressedSummary(v), true
+			}
+			return fmt.Sprintf("unexpected type %T", a.Value), true
+		case "ModelArchive":
+			switch v := a.Value.(type) {
+			case archive.NonDominanceModelArchive:
+				return archiveSummary(&v), true
+			case *archive.NonDominanceModelArchive:
+				return archiveSummary(v), true
+			}
+			return fmt.Sprintf("unexpected type %T", a.Value), true
+		}
+	}
+	return "", false
+}
 
 // ---------------------------------------------------------------- recording observer
 
 type annealEvent struct {
-	kind    byte // S s f F
-	hasIter bool
-	iter    uint64
-	hasTemp bool
-	temp    float64
-	hasMax  bool
-	max     uint64
-	attrs   string // attribute names as received (diagnostics)
+	kind      byte // S s f F
+	hasIter   bool
+	iter      uint64
+	hasTemp   bool
+	temp      float64
+	hasMax    bool
+	max       uint64
+	attrs     string // attribute names as received (diagnostics)
+	hasResult bool   // finish event: the CompressedModel / ModelArchive attribute, summarised when received
+	result    string
+}
+
+type seqEntry struct {
+	observer int
+	event    annealEvent
 }
 
 type traceRecorder struct {
-	merged *[]string // non-nil for the recorder in first position: joins the explorer-call log
+	index  int
+	merged *[]string   // non-nil for the recorder in first position: joins the explorer-call log
+	log    *[]string   // the explorer-call log (a panicking recorder leaves its marker there)
+	seq    *[]seqEntry // one log shared by all recorders of the case: who was called with what, in call order
 	events []annealEvent
+	// injected panic: in the callback for event kind panicKind (0 = never) of iteration panicAt of this Anneal() call
+	panicKind    byte
+	panicAt      int
+	asError      bool
+	iterThisCall int
 }
 
 func (r *traceRecorder) ObserveEvent(e observer.Event) {
@@ -139,10 +246,29 @@ func (r *traceRecorder) ObserveEvent(e observer.Event) {
 			}
 		}
 	}
+	if k == 'F' {
+		ev.result, ev.hasResult = resultOfFinishEvent(e)
+	}
 	ev.attrs = strings.Join(names, ",")
 	r.events = append(r.events, ev)
+	if r.seq != nil {
+		*r.seq = append(*r.seq, seqEntry{r.index, ev})
+	}
 	if r.merged != nil {
 		*r.merged = append(*r.merged, ev.token(true))
+	}
+	switch k {
+	case 'S':
+		r.iterThisCall = 0
+	case 's':
+		r.iterThisCall++
+	}
+	if r.panicKind == k && (k == 'S' || k == 'F' || r.iterThisCall == r.panicAt) {
+		*r.log = append(*r.log, fmt.Sprintf("!%d", r.index))
+		if r.asError {
+			panic(errors.New("injected failure"))
+		}
+		panic("injected failure")
 	}
 }
 
@@ -191,19 +317,25 @@ func annealingLogger(sink *sinkWriter) logging.Logger {
 
 type annealCase struct {
 	annealer string // simple | elapsed
-	expl     string // null | kirk | supp | avg
+	expl     string // null | kirk | kirki | supp | avg (dumb models) | kirkc | suppc (the real catchment model)
 	N        int
 	T0, a    float64
-	site     string
-	at       int
-	asError  bool
-	lineup   string // R = passive recorder, M = crem message observer, A = crem attribute observer
-	modulo   uint64
-	wired    bool // explorer events forwarded through the annealer, as scenario.Runner wires them
-	reruns   int
+	// site: none | init | try | cool (before the real CoolDown) | coola (after it) | fattr (finish attributes) |
+	// down (TearDown) | obsS obss obsf obsF (observer number obs panics in its callback at that notify point)
+	site    string
+	at      int // iteration of this Anneal() call (try cool coola obss obsf)
+	obs     int // position of the panicking recorder in the line-up (obs* sites)
+	asError bool
+	lineup  string // R = passive recorder, M = crem message observer, A = crem attribute observer
+	modulo  uint64
+	wired   bool // explorer and model events forwarded through the annealer, as scenario.Runner wires them
+	reruns  int
+	asFirst bool // observers registered back to front with AddObserverAsFirst (same resulting order)
 }
 
 func (ac annealCase) hasTemp() bool { return ac.expl != "null" }
+
+func (ac annealCase) observerSite() bool { return strings.HasPrefix(ac.site, "obs") }
 
 func (ac annealCase) siteTok() string {
 	switch ac.site {
@@ -211,15 +343,41 @@ func (ac annealCase) siteTok() string {
 		return "init"
 	case "try", "cool":
 		return fmt.Sprintf("%s:%d", ac.site, ac.at)
+	case "coola":
+		return fmt.Sprintf("coolafter:%d", ac.at)
+	case "fattr":
+		return "fattr"
+	case "down":
+		return "teardown"
+	case "obsS", "obsF":
+		return fmt.Sprintf("%s:%d", ac.site, ac.obs)
+	case "obss", "obsf":
+		return fmt.Sprintf("%s:%d:%d", ac.site, ac.at, ac.obs)
 	}
 	return "none"
 }
 
+// siteFires: is the injected panic reached by an Anneal() call entered with counter cur0?
+func (ac annealCase) siteFires(cur0 int) bool {
+	switch ac.site {
+	case "init", "fattr", "down":
+		return true
+	case "obsS", "obsF":
+		return ac.obs < len(ac.lineup)
+	case "try", "cool", "coola", "obss", "obsf":
+		if strings.HasPrefix(ac.site, "obs") && ac.obs >= len(ac.lineup) {
+			return false
+		}
+		return ac.at >= 1 && ((cur0 < ac.N && ac.at <= ac.N-cur0) || (cur0 >= ac.N && ac.N > 0 && ac.at == 1))
+	}
+	return false
+}
+
 func buildInnerExplorer(kind string) explorer.Explorer {
 	switch kind {
-	case "kirk", "kirki":
+	case "kirk", "kirki", "kirkc":
 		return kirkpatrick.New()
-	case "supp":
+	case "supp", "suppc":
 		return suppapitnarm.New().WithCoolant(coolingSuppapitnarm.NewCoolant())
 	case "avg":
 		return suppapitnarm.New().WithCoolant(averaged.NewCoolant())
@@ -244,10 +402,16 @@ func (m *invalidatingDumb) ChangeIsValid() (bool, *cremerrors.CompositeError) {
 	return true, nil
 }
 
+// currentTemperature reads the coolant directly (the explorers' event attributes also evaluate the model's
+// objective, which a model that was never initialised - a panic in Initialise - cannot give)
 func currentTemperature(e explorer.Explorer) (float64, bool) {
-	attrs := e.EventAttributes(observer.StartedIteration)
-	t, ok := attrs.Value("Temperature").(float64)
-	return t, ok
+	switch x := e.(type) {
+	case *kirkpatrick.Explorer:
+		return x.Temperature, true
+	case *suppapitnarm.Explorer:
+		return x.VerifCoolant().Temperature(), true
+	}
+	return 0, false
 }
 
 func runAnnealCase(c *Ctx, ac annealCase) {
@@ -255,6 +419,8 @@ func runAnnealCase(c *Ctx, ac annealCase) {
 	var ann annealing.Annealer
 	var hook *hookExplorer
 	recorders := map[int]*traceRecorder{}
+	seq := []seqEntry{}
+	modelWired := false
 	sink := &sinkWriter{}
 	build := protect(func() {
 		if ac.annealer == "elapsed" {
@@ -265,6 +431,9 @@ func runAnnealCase(c *Ctx, ac annealCase) {
 		ann.Initialise()
 		inner := buildInnerExplorer(ac.expl)
 		hook = &hookExplorer{Explorer: inner, log: &log, site: ac.site, at: ac.at, asError: ac.asError}
+		if ac.observerSite() {
+			hook.site = "none"
+		}
 		ann.SetSolutionExplorer(hook)
 		ann.SetLogHandler(loggers.NewNullLogger()) // as scenario.Runner.SetAnnealer does; reaches the explorer
 		params := parameters.Map{"MaximumIterations": int64(ac.N)}
@@ -272,7 +441,10 @@ func runAnnealCase(c *Ctx, ac annealCase) {
 			params["StartingTemperature"] = ac.T0
 			params["CoolingFactor"] = ac.a
 		}
-		if ac.expl == "supp" || ac.expl == "avg" {
+		if ac.expl == "kirkc" {
+			params[kirkpatrick.DecisionVariableName] = "SedimentProduction"
+		}
+		if ac.expl == "supp" || ac.expl == "avg" || ac.expl == "suppc" {
 			params["InitialReturnToBaseStep"] = int64(7)
 			params["MinimumReturnToBaseRate"] = int64(3)
 		}
@@ -288,30 +460,58 @@ func runAnnealCase(c *Ctx, ac annealCase) {
 			ann.SetModel(&invalidatingDumb{Model: dumb.NewModel(), pattern: 0xB6D3_5A96_C3E1_7D25 ^ uint64(ac.N)*0x9E3779B97F4A7C15})
 		case "supp", "avg":
 			ann.SetModel(modumb.NewModel().WithParameters(parameters.Map{"NumberOfPlanningUnits": int64(4)}))
+		case "kirkc", "suppc":
+			// the real catchment model on the shipped dataset; under the Kirkpatrick explorer with a cost limit on
+			// every other budget, so that some proposals are invalid
+			mp := parameters.Map{"DataSourcePath": catchmentCsv}
+			if ac.expl == "kirkc" && ac.N%2 == 1 {
+				mp["MaximumImplementationCost"] = float64(150000)
+			}
+			ann.SetModel(catchment.NewModel().WithParameters(mp))
 		}
 		logger := annealingLogger(sink)
-		for i, ch := range ac.lineup {
-			switch ch {
+		add := ann.AddObserver
+		order := make([]int, len(ac.lineup))
+		for i := range order {
+			order[i] = i
+		}
+		if ac.asFirst {
+			// the same line-up built back to front with AddObserverAsFirst
+			add = ann.AddObserverAsFirst
+			for i := range order {
+				order[i] = len(ac.lineup) - 1 - i
+			}
+		}
+		for _, i := range order {
+			switch ac.lineup[i] {
 			case 'R':
-				r := &traceRecorder{}
+				r := &traceRecorder{index: i, log: &log, seq: &seq}
 				if i == 0 {
 					r.merged = &log
 				}
+				if ac.observerSite() && ac.obs == i {
+					r.panicKind, r.panicAt, r.asError = ac.site[3], ac.at, ac.asError
+				}
 				recorders[i] = r
-				ann.AddObserver(r)
+				add(r)
 			case 'M':
-				ann.AddObserver(new(annealingObserver.AnnealingMessageObserver).
+				add(new(annealingObserver.AnnealingMessageObserver).
 					WithLogHandler(logger).
 					WithFilter(new(filters.IterationCountFilter).WithModulo(ac.modulo)))
 			case 'A':
-				ann.AddObserver(new(annealingObserver.AnnealingAttributeObserver).
+				add(new(annealingObserver.AnnealingAttributeObserver).
 					WithLogHandler(logger).
 					WithFilter(new(filters.IterationCountFilter).WithModulo(ac.modulo)))
 			}
 		}
 		if ac.wired {
+			// scenario.Runner.wireObservers: the annealer observes its explorer and its model and forwards their events
 			if n, ok := inner.(observer.EventNotifier); ok {
 				n.AddObserver(ann.(observer.Observer))
+			}
+			if n, ok := ann.Model().(observer.EventNotifier); ok {
+				n.AddObserver(ann.(observer.Observer))
+				modelWired = true
 			}
 		}
 	})
@@ -324,6 +524,8 @@ func runAnnealCase(c *Ctx, ac annealCase) {
 	T := ac.T0
 	for run := 0; run <= ac.reruns; run++ {
 		log = log[:0]
+		seq = seq[:0]
+		hook.finalState = ""
 		for _, r := range recorders {
 			r.events = r.events[:0]
 		}
@@ -342,6 +544,8 @@ func runAnnealCase(c *Ctx, ac annealCase) {
 		curOK := false
 		Tend, hasT := 0.0, false
 		after := protect(func() {
+			hook.mute = true
+			defer func() { hook.mute = false }()
 			attrs := ann.EventAttributes(observer.FinishedIteration)
 			cur, curOK = attrs.Value("CurrentIteration").(uint64)
 			Tend, hasT = currentTemperature(hook.Explorer)
@@ -363,8 +567,7 @@ func runAnnealCase(c *Ctx, ac annealCase) {
 		ops := []string{ac.encode(), op}
 
 		// ---- the property, evaluated directly on the implementation
-		expectPanic := ac.site == "init" || ((ac.site == "try" || ac.site == "cool") && ac.at >= 1 &&
-			((cur0 < ac.N && ac.at <= ac.N-cur0) || (cur0 >= ac.N && ac.N > 0 && ac.at == 1)))
+		expectPanic := ac.siteFires(cur0)
 		if expectPanic != (pan != "") {
 			c.Fail("panic-reraised", "anneal:panic-not-reraised", fmt.Sprintf("%s: injected=%s panic=%q", desc, ac.siteTok(), pan), ops)
 		}
@@ -386,8 +589,15 @@ func runAnnealCase(c *Ctx, ac annealCase) {
 				inits++
 			}
 		}
-		if pan == "" && cur0 == 0 && tries != ac.N {
-			c.Fail("exact-budget", "anneal:budget", fmt.Sprintf("%s: %d iterations for budget %d", desc, tries, ac.N), ops)
+		wantTries := ac.N - cur0 // a fresh counter, or a re-entry in mid-run: the rest of the budget
+		if cur0 >= ac.N {
+			wantTries = 0
+			if ac.N > 0 {
+				wantTries = 1 // the counter is not reset: exactly one more iteration (rerun_single_iteration)
+			}
+		}
+		if pan == "" && tries != wantTries {
+			c.Fail("exact-budget", "anneal:budget", fmt.Sprintf("%s: %d iterations for budget %d entered with counter %d", desc, tries, ac.N, cur0), ops)
 		}
 		if inits != 1 || (teardowns != 1 && ac.site != "init") || (len(log) > 0 && log[0] != "I") ||
 			(ac.site != "init" && len(log) > 0 && log[len(log)-1] != "D") {
@@ -408,21 +618,90 @@ func runAnnealCase(c *Ctx, ac annealCase) {
 				c.Fail("trace-shape", "anneal:call-order", fmt.Sprintf("%s: trace %s", desc, clip(trace, 300)), ops)
 			}
 		}
+		anyBehind := false
 		for i := 0; i < len(ac.lineup); i++ {
 			r, ok := recorders[i]
 			if !ok {
 				continue
 			}
 			behind := strings.ContainsAny(ac.lineup[:i], "MA")
+			anyBehind = anyBehind || behind
 			mode := "full"
 			if behind {
 				mode = "kinds"
 			}
 			vop := fmt.Sprintf("view %d %s", i, mode)
 			c.Op(vop, traceTokens(r.events, !behind))
-			checkObserverView(c, ac, desc, r.events, cur0, T, pan != "", behind, []string{ac.encode(), op, vop})
+			vops := []string{ac.encode(), op, vop}
+			checkObserverView(c, ac, desc, i, r.events, cur0, T, pan != "", behind, vops)
+			// the result the finish event carries is the explorer's final state (direct; the model's finish event
+			// carries counter and temperature only)
+			if n := len(r.events); n > 0 && r.events[n-1].kind == 'F' && ac.expl != "null" {
+				fe := r.events[n-1]
+				switch {
+				case !fe.hasResult:
+					c.Fail("finish-carries-result", "anneal:finish-result", fmt.Sprintf("%s: observer %d: the finish event carries no CompressedModel / ModelArchive attribute (attributes: %s)", desc, i, fe.attrs), vops)
+				case fe.result != hook.finalState:
+					c.Fail("finish-carries-result", "anneal:finish-result", fmt.Sprintf("%s: observer %d: the finish event carries %s but the explorer's final state is %s", desc, i, clip(fe.result, 300), clip(hook.finalState, 300)), vops)
+				default:
+					c.Stat("finish event's result compared with the explorer's final state (" + ac.expl + ")")
+				}
+			}
 		}
-		c.Stat(fmt.Sprintf("run %s/%s %s", ac.annealer, ac.expl, map[bool]string{true: "panic(" + ac.site + ")", false: "returned"}[pan != ""]))
+		if len(recorders) > 0 {
+			// one shared log: the order in which the notifier called the recorders, across observers
+			mode := "full"
+			if anyBehind {
+				mode = "kinds"
+			}
+			toks := make([]string, len(seq))
+			for i, e := range seq {
+				toks[i] = fmt.Sprintf("%d>%s", e.observer, e.event.token(!anyBehind))
+			}
+			sop := fmt.Sprintf("seq L%s %s", ac.lineup, mode)
+			got := "-"
+			if len(toks) > 0 {
+				got = strings.Join(toks, ",")
+			}
+			c.Op(sop, got)
+			// direct: event by event, each event to the observers in the order they were registered
+			first := len(ac.lineup)
+			for i := range recorders {
+				if i < first {
+					first = i
+				}
+			}
+			for i := 1; i < len(seq); i++ {
+				a, b := seq[i-1], seq[i]
+				sameEvent := a.event.token(false) == b.event.token(false)
+				if !((b.observer > a.observer && sameEvent) || b.observer == first) {
+					c.Fail("delivery-order", "anneal:delivery-order", fmt.Sprintf("%s: call %d of the notifier went to observer %d with %s right after observer %d got %s; calls: %s", desc, i+1, b.observer, b.event.token(true), a.observer, a.event.token(true), clip(got, 300)), []string{ac.encode(), op, sop})
+					break
+				}
+			}
+			if len(recorders) > 1 {
+				c.Stat("shared sequence log of >= 2 recorders compared with the model's deliveries")
+			}
+		}
+		if ac.observerSite() && pan != "" {
+			// observers up to the panicking one were handed the event it panicked on, the others were not
+			pr := recorders[ac.obs]
+			for i, r := range recorders {
+				want := len(pr.events)
+				if i > ac.obs {
+					want--
+				}
+				if len(r.events) != want {
+					c.Fail("observer-panic-delivery", "anneal:observer-panic-delivery", fmt.Sprintf("%s: observer %d panicked after %d events; observer %d received %d, expected %d", desc, ac.obs, len(pr.events), i, len(r.events), want), ops)
+				}
+			}
+			c.Stat("observer panic at notify point " + ac.site[3:])
+		}
+		c.Stat(fmt.Sprintf("run %s/%s %s", ac.annealer, ac.expl, map[bool]string{true: "panic", false: "returned"}[pan != ""]))
+		c.Stat(fmt.Sprintf("site %s %s", ac.site, map[bool]string{true: "fired", false: "not reached"}[pan != ""]))
+		if cur0 > 0 && cur0 < ac.N {
+			c.Stat("re-entry in mid-run (0 < cur0 < N)")
+		}
 		c.Stat(fmt.Sprintf("observers=%d", len(ac.lineup)))
 		if strings.ContainsAny(ac.lineup, "MA") {
 			c.Stat("line-up has a crem logging observer ahead of a recorder: " + ac.lineup)
@@ -432,6 +711,12 @@ func runAnnealCase(c *Ctx, ac annealCase) {
 		}
 		if ac.wired {
 			c.Stat("explorer events forwarded through the annealer")
+		}
+		if modelWired {
+			c.Stat("model events forwarded through the annealer (" + ac.expl + ")")
+		}
+		if ac.asFirst {
+			c.Stat("line-up built with AddObserverAsFirst")
 		}
 		c.Stat(fmt.Sprintf("cooling factor %s", map[bool]string{true: fmt.Sprint(ac.a), false: "other"}[ac.a == 0 || ac.a == 0.5 || ac.a == 0.999 || ac.a == 1]))
 		c.Stat(fmt.Sprintf("N-bucket %s", nBucket(ac.N)))
@@ -446,7 +731,7 @@ func runAnnealCase(c *Ctx, ac annealCase) {
 			T = Tend
 		}
 	}
-	if sink.n == 0 && strings.ContainsAny(ac.lineup, "MA") && ac.site != "init" {
+	if sink.n == 0 && strings.ContainsAny(ac.lineup, "MA") && ac.site != "init" && ac.site != "obsS" {
 		c.Fail("harness:logging-on", "anneal:harness-logging-off", fmt.Sprintf("%+v: crem observer logged nothing", ac), nil)
 	}
 }
@@ -464,21 +749,28 @@ func nBucket(n int) string {
 }
 
 // checkObserverView: one start event, then (started k, finished k) for consecutive k, then one
-// finish event carrying the last k (unless the run panicked); temperature multiplied by the
-// cooling factor exactly once per iteration and never increasing.
-func checkObserverView(c *Ctx, ac annealCase, desc string, evs []annealEvent, cur0 int, T0 float64, panicked, behind bool, ops []string) {
+// finish event carrying the last k (unless the run panicked before this observer could get it);
+// temperature multiplied by the cooling factor exactly once per iteration and never increasing.
+func checkObserverView(c *Ctx, ac annealCase, desc string, idx int, evs []annealEvent, cur0 int, T0 float64, panicked, behind bool, ops []string) {
 	fail := func(pred, sig, msg string) {
-		c.Fail(pred, sig, fmt.Sprintf("%s: %s; received %s", desc, msg, clip(traceTokens(evs, true), 400)), ops)
+		c.Fail(pred, sig, fmt.Sprintf("%s: observer %d: %s; received %s", desc, idx, msg, clip(traceTokens(evs, true), 400)), ops)
 	}
 	iterSig := "anneal:iteration-number"
 	if behind {
 		// a passive observer placed behind one of crem's own logging observers
 		iterSig = "anneal:observer-event-aliasing"
 	}
+	// the finish event reaches this observer unless the run panicked before it was sent / before it got here
+	wantFinish := !panicked || ac.site == "down" || (ac.site == "obsF" && idx <= ac.obs)
 	if len(evs) == 0 {
-		if ac.site != "init" {
+		// nothing at all: only if the explorer's Initialise() panicked, or an observer ahead panicked on the start event
+		if !(ac.site == "init" || (ac.site == "obsS" && panicked && idx > ac.obs)) {
 			fail("trace-shape", "anneal:event-order", "observer received nothing")
 		}
+		return
+	}
+	if ac.site == "obsS" && panicked && idx > ac.obs {
+		fail("observer-panic-delivery", "anneal:observer-panic-delivery", fmt.Sprintf("an observer behind number %d, which panicked on the start event, still received events", ac.obs))
 		return
 	}
 	if evs[0].kind != 'S' {
@@ -488,8 +780,14 @@ func checkObserverView(c *Ctx, ac annealCase, desc string, evs []annealEvent, cu
 	if !(evs[0].hasMax && evs[0].max == uint64(ac.N)) && !behind {
 		fail("trace-shape", "anneal:event-order", "start event does not carry the budget")
 	}
+	if ac.hasTemp() && (!evs[0].hasTemp || math.Float64bits(evs[0].temp) != math.Float64bits(T0)) {
+		fail("temperature", "anneal:temperature", fmt.Sprintf("start event carries temperature %v, the coolant was at %v", evs[0].temp, T0))
+		return
+	}
 	k := uint64(cur0)
 	T := T0
+	prev := T0
+	monotone := ac.hasTemp() && ac.a >= 0 && ac.a <= 1 && T0 >= 0 // the premise of "never increases"
 	state := byte('S')
 	iterBad, lost := "", ""
 	for i, e := range evs[1:] {
@@ -512,6 +810,12 @@ func checkObserverView(c *Ctx, ac annealCase, desc string, evs []annealEvent, cu
 			iterBad = fmt.Sprintf("event %d (%c) carries iteration %d, expected %d", i+1, e.kind, e.iter, k)
 		}
 		if ac.hasTemp() {
+			// direct, and independent of the product below: no event carries a higher temperature than the one before it
+			if monotone && e.hasTemp && !(e.temp <= prev) {
+				fail("temperature-never-increases", "anneal:temperature-increased", fmt.Sprintf("event %d (%c, iteration %d) carries temperature %v, the event before it carried %v", i+1, e.kind, k, e.temp, prev))
+				return
+			}
+			prev = e.temp
 			if !e.hasTemp || math.Float64bits(e.temp) != math.Float64bits(T) {
 				fail("temperature", "anneal:temperature", fmt.Sprintf("event %d (%c, iteration %d) carries temperature %v, expected %v", i+1, e.kind, k, e.temp, T))
 				return
@@ -524,7 +828,7 @@ func checkObserverView(c *Ctx, ac annealCase, desc string, evs []annealEvent, cu
 	if iterBad != "" {
 		fail("event-carries-iteration", "anneal:iteration-number", iterBad)
 	}
-	if panicked {
+	if !wantFinish {
 		if state == 'F' {
 			fail("panic-no-finish", "anneal:finish-after-panic", "finish event sent although the run panicked")
 		}
@@ -540,7 +844,7 @@ var annealLineups = []string{"", "R", "RR", "RRR", "RRRR", "MR", "RMR", "MRR", "
 func annealRandomCase(r *Rng, thorough bool) annealCase {
 	ac := annealCase{site: "none", modulo: 1}
 	ac.annealer = []string{"simple", "elapsed"}[r.Intn(2)]
-	ac.expl = []string{"null", "kirk", "kirki", "supp", "avg"}[r.Intn(5)]
+	ac.expl = []string{"null", "kirk", "kirki", "supp", "avg", "kirk", "supp", "avg", "kirkc", "suppc"}[r.Intn(10)]
 	switch r.Intn(6) {
 	case 0:
 		ac.N = 0
@@ -556,13 +860,17 @@ func annealRandomCase(r *Rng, thorough bool) annealCase {
 		ac.N = 1 + r.Intn(50)
 	}
 	ac.T0 = []float64{10, 1000, 0.5, 1, 123.456, 1e-300, 1e300, 0}[r.Intn(8)]
+	if r.Chance(0.3) {
+		ac.T0 = math.Pow(10, r.Float()*40-20)
+	}
+	ac.asFirst = r.Chance(0.25)
 	if r.Chance(0.7) {
 		ac.a = []float64{0, 0.5, 0.999, 1}[r.Intn(4)]
 	} else {
 		ac.a = r.Float()
 	}
-	if r.Chance(0.4) {
-		ac.site = []string{"try", "try", "cool", "init"}[r.Intn(4)]
+	if r.Chance(0.5) {
+		ac.site = []string{"try", "try", "cool", "coola", "coola", "init", "fattr", "down", "obsS", "obss", "obss", "obsf", "obsf", "obsF"}[r.Intn(14)]
 		switch r.Intn(5) {
 		case 0:
 			ac.at = 1
@@ -576,22 +884,36 @@ func annealRandomCase(r *Rng, thorough bool) annealCase {
 		ac.asError = r.Bool()
 	}
 	ac.lineup = annealLineups[r.Intn(len(annealLineups))]
+	if ac.observerSite() {
+		// the panicking observer is one of the recorders of the line-up
+		rs := []int{}
+		for i, ch := range ac.lineup {
+			if ch == 'R' {
+				rs = append(rs, i)
+			}
+		}
+		if len(rs) == 0 {
+			ac.site = "none"
+		} else {
+			ac.obs = rs[r.Intn(len(rs))]
+		}
+	}
 	ac.modulo = []uint64{1, 1, 3, 10}[r.Intn(4)]
 	ac.wired = ac.expl != "null" && r.Chance(0.4)
-	if r.Chance(0.2) {
+	if r.Chance(0.25) {
 		ac.reruns = 1 + r.Intn(2)
 	}
 	return ac
 }
 
 func (ac annealCase) encode() string {
-	return fmt.Sprintf("reset %s %s %d %s %s %s %d %s %s %d %s %d", ac.annealer, ac.expl, ac.N, floatBits(ac.T0), floatBits(ac.a),
-		ac.site, ac.at, b2s(ac.asError), "L"+ac.lineup, ac.modulo, b2s(ac.wired), ac.reruns)
+	return fmt.Sprintf("reset %s %s %d %s %s %s %d %s %s %d %s %d %d %s", ac.annealer, ac.expl, ac.N, floatBits(ac.T0), floatBits(ac.a),
+		ac.site, ac.at, b2s(ac.asError), "L"+ac.lineup, ac.modulo, b2s(ac.wired), ac.reruns, ac.obs, b2s(ac.asFirst))
 }
 
 func decodeAnnealCase(l string) (annealCase, bool) {
 	w := strings.Fields(l)
-	if len(w) != 13 || w[0] != "reset" {
+	if len(w) < 13 || len(w) > 15 || w[0] != "reset" { // 13: case lines written before observer sites existed
 		return annealCase{}, false
 	}
 	ac := annealCase{annealer: w[1], expl: w[2], site: w[6], asError: w[8] == "1", lineup: strings.TrimPrefix(w[9], "L"), wired: w[11] == "1"}
@@ -601,6 +923,12 @@ func decodeAnnealCase(l string) (annealCase, bool) {
 	ac.at, _ = strconv.Atoi(w[7])
 	ac.modulo, _ = strconv.ParseUint(w[10], 10, 64)
 	ac.reruns, _ = strconv.Atoi(w[12])
+	if len(w) >= 14 {
+		ac.obs, _ = strconv.Atoi(w[13])
+	}
+	if len(w) >= 15 {
+		ac.asFirst = w[14] == "1"
+	}
 	return ac, true
 }
 
@@ -658,8 +986,11 @@ func suiteAnneal(c *Ctx) {
 	}
 	r := c.Rng
 	// systematic part: every budget 0..50 and 1000, the four named cooling factors, every explorer
-	for _, expl := range []string{"null", "kirk", "supp", "avg"} {
+	for _, expl := range []string{"null", "kirk", "supp", "avg", "kirkc", "suppc"} {
 		for N := 0; N <= 51; N++ {
+			if (expl == "kirkc" || expl == "suppc") && N%5 != 0 && N > 3 {
+				continue // the real catchment model: budgets 0..3, every fifth up to 50
+			}
 			n := N
 			if N == 51 {
 				n = 1000
@@ -667,10 +998,22 @@ func suiteAnneal(c *Ctx) {
 			a := []float64{0, 0.5, 0.999, 1}[N%4]
 			lineup := annealLineups[N%len(annealLineups)]
 			ann := []string{"simple", "elapsed"}[N%2]
-			runAnnealCaseRecorded(c, annealCase{annealer: ann, expl: expl, N: n, T0: 1000, a: a, site: "none", lineup: lineup, modulo: 1, wired: expl != "null" && N%3 == 0})
+			runAnnealCaseRecorded(c, annealCase{annealer: ann, expl: expl, N: n, T0: 1000, a: a, site: "none", lineup: lineup, modulo: 1, wired: expl != "null" && N%3 == 0, asFirst: N%4 == 1})
 			if n > 0 {
 				at := 1 + (N*7)%n
 				runAnnealCaseRecorded(c, annealCase{annealer: ann, expl: expl, N: n, T0: 10, a: a, site: []string{"try", "cool"}[N%2], at: at, asError: N%3 == 0, lineup: "RR", modulo: 1})
+				// a panic after the real CoolDown / while the finish attributes are built / in TearDown; with a re-run:
+				// the second Anneal() re-enters in mid-run (coola) or at the budget
+				runAnnealCaseRecorded(c, annealCase{annealer: ann, expl: expl, N: n, T0: 10, a: a, site: []string{"coola", "fattr", "down"}[N%3], at: at, asError: N%2 == 0, lineup: "RR", modulo: 1, reruns: N % 2})
+			}
+			// an observer panics in its callback: every notify point, every position among three recorders
+			osite := []string{"obsS", "obss", "obsf", "obsF"}[N%4]
+			if n > 0 || osite == "obsS" || osite == "obsF" {
+				at := 1
+				if n > 0 {
+					at = 1 + (N*5)%n
+				}
+				runAnnealCaseRecorded(c, annealCase{annealer: ann, expl: expl, N: n, T0: 10, a: a, site: osite, at: at, obs: (N / 4) % 3, asError: N%3 == 1, lineup: "RRR", modulo: 1})
 			}
 		}
 	}
